@@ -19,11 +19,11 @@ FUNCTIONS = [
     "jsonargparse._core.ArgumentParser.add_subcommands/parse_object/parse_args/parse_env/_load_env_vars (subcommand branch)/get_defaults",
 ]
 
-L1 = ["A", "B", "C"]
+L1 = ["A", "B", "C", "E"]  # E has no options at all: its settings are an empty namespace
 L2 = ["A1", "A2"]
-DEFAULTS1 = {"A": {"x": 1}, "B": {"y": 2}, "C": {"z": 3}}
+DEFAULTS1 = {"A": {"x": 1}, "B": {"y": 2}, "C": {"z": 3}, "E": {}}
 DEFAULTS2 = {"A1": {"p": 4}, "A2": {"q": 5}}
-LEAF1 = {"A": "x", "B": "y", "C": "z"}
+LEAF1 = {"A": "x", "B": "y", "C": "z", "E": None}
 LEAF2 = {"A1": "p", "A2": "q"}
 DEFAULT_FILE_KINDS = ["none", "global-only", "section-B"]
 
@@ -40,7 +40,8 @@ def _tree(required, depth, default_file=None):
     subs = {}
     for name in L1:
         p = ArgumentParser(exit_on_error=False)
-        p.add_argument("--" + LEAF1[name], type=int, default=DEFAULTS1[name][LEAF1[name]])
+        if LEAF1[name]:
+            p.add_argument("--" + LEAF1[name], type=int, default=DEFAULTS1[name][LEAF1[name]])
         subs[name] = p
     sc = top.add_subcommands(required=required)
     for name in L1:
@@ -197,7 +198,7 @@ def selection(required, depth, channel, file_kind="none", shard=None, nshards=1)
         g = val("g") if S.flag("g.given") else None
         sel_kind = S.choice("selector", len(L1) + 2)  # absent, A, B, C, unknown
         selector = None if sel_kind == 0 else (L1 + ["nope"])[sel_kind - 1]
-        sections = {n: ({LEAF1[n]: val(n + "." + LEAF1[n])} if S.flag(n + ".section") else None) for n in L1}
+        sections = {n: ({LEAF1[n]: val(n + "." + LEAF1[n])} if (LEAF1[n] and S.flag(n + ".section")) else None) for n in L1}
         selector2, sections2 = None, {n: None for n in L2}
         if depth == 2:
             k2 = S.choice("selector2", len(L2) + 1)
@@ -225,12 +226,14 @@ def argv_env(required):
         obj = {}
         if cfg_named:
             obj["subcommand"] = cfg_named
-        if cfg_section:
+        if cfg_section and LEAF1[cfg_section]:
             obj[cfg_section] = {LEAF1[cfg_section]: 9}
+        else:
+            cfg_section = None
         if obj:
             argv += ["--cfg", json.dumps(obj)]
         if named:
-            argv += [named, f"--{LEAF1[named]}=6"]
+            argv += [named] + ([f"--{LEAF1[named]}=6"] if LEAF1[named] else [])
         env = {}
         if env_named:
             env["APP_SUBCOMMAND"] = env_named
@@ -262,7 +265,7 @@ def argv_env(required):
                 exp_sec = dict(DEFAULTS1[choice])
                 if cfg_section == choice:
                     exp_sec[LEAF1[choice]] = 9
-                if named == choice:
+                if named == choice and LEAF1[choice]:
                     exp_sec[LEAF1[choice]] = 6
                 if got.get(choice) != exp_sec:
                     return Fail("subcommand:argv-env-wrong-settings", choice=choice, got=str(got.get(choice)), want=str(exp_sec))
